@@ -50,6 +50,7 @@ def run(tier):
     if mr.violated:
         raise Machinery('Formats.tla laws violated (specification inconsistent): %s' % mr.violated)
     rejects, stats = validate('traces/RenderTrace.tla', events, 'c07', per_shard=500)
+    demo = rf.render_binding_demo(events, 'c07')
     viols = []
     unrenderable = 0
     for (i, clause) in rejects:
@@ -60,7 +61,7 @@ def run(tier):
             m = metas[i]
             viols.append(Violation(PROP, clause, (m.get('probe', '') + ' ' + str(m.get('words')))[:300].strip(), m))
     cov = {'tlc_runs': [{'cfg': 'MCFormats', 'distinct': mr.distinct, 'generated': mr.generated, 'wall_s': round(mr.wall, 1)}],
-           'states': stats.states + mr.distinct, 'transitions': stats.transitions + mr.generated, 'traces_validated_against_impl': len(events),
+           'states': stats.states + mr.distinct, 'transitions': stats.transitions + mr.generated, 'binding_demonstration': demo, 'traces_validated_against_impl': len(events),
            'events': {'parse_results': n, 'renderings_by_format': per_fmt, 'events': len(events), 'renderings_that_raised_not_judged_here': unrenderable,
                       'tree_events': sum(1 for e in events if e['e'] == 'tree')},
            'samples': [{k: metas[i][k] for k in metas[i] if k in ('lang', 'fmt', 'words', 'text')} for i in (1, len(events) // 2, len(events))],
